@@ -110,6 +110,42 @@ def _guard_only(loop: ast.For):
     return any(isinstance(n, ast.Raise) for n in ast.walk(ast.Module(body=loop.body, type_ignores=[])))
 
 
+def _feeds_only_guards(node, chain, parents):
+    """a comprehension over an unordered source whose result is bound to a local that is only tested (if x: / len(x) / in a raise message)"""
+    assign = next((c for c in chain[:2] if isinstance(c, ast.Assign) and len(c.targets) == 1 and isinstance(c.targets[0], ast.Name)), None)
+    if assign is None or assign.value is not node:
+        return False
+    name = assign.targets[0].id
+    fn = next((c for c in chain if isinstance(c, (ast.FunctionDef, ast.AsyncFunctionDef))), None)
+    if fn is None:
+        p = parents.get(chain[-1]) if chain else None
+        while p is not None and not isinstance(p, (ast.FunctionDef, ast.AsyncFunctionDef)):
+            p = parents.get(p)
+        fn = p
+    if fn is None:
+        return False
+    uses = [n for n in ast.walk(fn) if isinstance(n, ast.Name) and n.id == name and isinstance(n.ctx, ast.Load)]
+    if not uses:
+        return True
+    for u in uses:
+        p, okuse, hops = parents.get(u), False, 0
+        prev = u
+        while p is not None and hops < 8:
+            if isinstance(p, ast.If) and (prev is p.test or any(prev is x for x in ast.walk(p.test))):
+                okuse = True
+                break
+            if isinstance(p, (ast.Raise, ast.Assert)):
+                okuse = True
+                break
+            if isinstance(p, (ast.FunctionDef, ast.For, ast.Return, ast.Yield, ast.Assign)):
+                break
+            prev, p = p, parents.get(p)
+            hops += 1
+        if not okuse:
+            return False
+    return True
+
+
 def check_iterations(ctx: core.Ctx, g: GenInfo, rule="GEN-ITER"):
     """GEN-ITER + SLOT-AGREE over the iteration inventory of generator code."""
     par = {m: _parents(g.p.modules[m]) for m in ("cpp", "ast_fragments")}
@@ -137,7 +173,7 @@ def check_iterations(ctx: core.Ctx, g: GenInfo, rule="GEN-ITER"):
                 p = par[mod].get(p)
             inside_sorted = any(isinstance(c, ast.Call) and isinstance(c.func, ast.Name) and c.func.id == "sorted" for c in chain[:3])
             inside_raise = any(isinstance(c, ast.Raise) for c in chain)
-            ok = inside_sorted or inside_raise or (isinstance(node, ast.For) and _guard_only(node))
+            ok = inside_sorted or inside_raise or (isinstance(node, ast.For) and _guard_only(node)) or _feeds_only_guards(node, chain, par[mod])
             n += 1
             ctx.oblige(rule, where, f"iteration over `{i['iter']}` (unordered) " + ("inside sorted()" if inside_sorted else "guard/message only" if ok else ""),
                        ok, file=i["file"], func=func, construct=f"unordered iteration {i['iter']}",
